@@ -404,3 +404,6 @@ func (w *World) emitPhase(step int, sc *Scenario, sched *Sched, drift, blocked [
 		"schedule": toAny(sc.Schedule)})
 	return nil
 }
+
+// LockKind classifies a locker key (doc, pull, attach, push, snapshot, other).
+func LockKind(k string) string { return lockKind(k) }
